@@ -442,9 +442,12 @@ impl BlockData {
                 parent = new_parent;
             }
 
-            // cap preallocation to the slice size limit (wincode has a 4 MiB default)
-            let config =
-                DefaultConfig::default().with_preallocation_size_limit::<MAX_DATA_PER_SLICE>();
+            // cap preallocation to what a slice can hold (wincode has a 4 MiB default)
+            // NOTE: the limit applies to `len * size_of::<Transaction>()`, not to serialized bytes,
+            // and a serialized transaction takes at least 8 bytes
+            let config = DefaultConfig::default().with_preallocation_size_limit::<{
+                MAX_DATA_PER_SLICE / 8 * size_of::<crate::Transaction>()
+            }>();
             let mut txs = match wincode::config::deserialize_exact(&slice.data, config) {
                 Ok(r) => r,
                 Err(err) => {
